@@ -170,7 +170,7 @@ def ref_eval(ast, num, floor_div):
 def skeletons(max_ops, thorough):
     """Expression strings whose operands are the literals 1,2,3,4 (operand identity)."""
     out = []
-    signs = ['', '-', '+'] + (['--', '-+'] if thorough else [])
+    signs = ['', '-', '+', '--', '-+']
     for k in range(0, max_ops + 1):
         nops = k + 1
         for ops in itertools.product(OPS, repeat=k):
@@ -378,9 +378,19 @@ def mk_values(max_ops, thorough, part, nparts):
         for idx, skel in enumerate(mine):
             try:
                 r, model, _ = solve(skel)
-            except AssertionError as e:
-                res['error'] = str(e)
-                break
+            except Exception as e:
+                # the operands could not be injected (the evaluator did something other than + - * / neg floor with
+                # them): fall back to a concrete sweep of small integer operands for this skeleton
+                r, model = 'unknown', None
+                for vals in itertools.product((-7, -2, 1, 2, 3), repeat=skel.count('1') + skel.count('2') + skel.count('3') + skel.count('4')):
+                    m_ = {i + 1: float(v) for i, v in enumerate(vals)}
+                    kind = fn(render(skel, m_)) if True else None
+                    if kind is not True:
+                        r, model = 'sat', m_
+                        break
+                if r != 'sat':
+                    res['error'] = 'operand injection failed: %s' % str(e)[:200]
+                    break
             res['queries'] += 1
             if r == 'unsat':
                 res['unsat'] += 1
@@ -413,7 +423,7 @@ def mk_values(max_ops, thorough, part, nparts):
         return True if abs(got - exp) <= 1e-9 * max(1.0, abs(exp)) else 'value_differs'
 
     wit = ['1+2', '1 + 2', '2 * 3', '2 * 3 + 1', '-2 * 3 + 1', '2 * -3 + 1', '5 / 2', '5 \\ 2',
-           '2 * (3 + 1)', '(3 * (1+2)) * 2', '3 * -(1 + 2)', '(1 + 2) * 3', '6/-2', '--6']
+           '2 * (3 + 1)', '(3 * (1+2)) * 2', '3 * -(1 + 2)', '(1 + 2) * 3', '6/-2', '--6', '-7\\2', '7\\-2', '(1-8)\\2', '-+6', '2*--3']
     return {'fn': fn, 'direct': direct, 'solve': solve, 'witnesses': [{'expr': w} for w in wit],
             'assumptions': ['operands range over all reals; every divisor != 0',
                             'skeleton family: <=%d binary operators, %s' % (
